@@ -52,6 +52,10 @@ impl BindScope for BindNode {
         let mut all = self.all_nodes_created_on_rhs.borrow_mut();
         all.push(node);
     }
+    #[cfg(cormacrelf_incremental_rs_verif)]
+    fn verif_lhs_change_rank(&self) -> Option<usize> {
+        self.verif_lhs_change_rank_inner()
+    }
 }
 
 pub(crate) trait LhsChangeFn:
@@ -65,5 +69,12 @@ impl fmt::Debug for BindNode {
         f.debug_struct("BindNode")
             // .field("output", &self.rhs.borrow().as_ref().map(|x| &x.node))
             .finish()
+    }
+}
+
+#[cfg(cormacrelf_incremental_rs_verif)]
+impl BindNode {
+    pub(crate) fn verif_lhs_change_rank_inner(&self) -> Option<usize> {
+        self.lhs_change.borrow().upgrade().map(|n| n.verif_rank.get())
     }
 }
